@@ -311,19 +311,35 @@ func checkRequestDecoders(c *core.Ctx, r *core.Rule, ex *core.Expansion, fx *cor
 				continue
 			}
 			var decodeCall, skipCall *ssa.Call
+			// only immediately-invoked closures (the body / value decoding block), not callbacks handed to
+			// d.Arr / d.Obj
+			immediate := false
+			for _, pc := range core.Calls(f.Parent()) {
+				if pc.Common().StaticCallee() == f {
+					immediate = true
+				}
+			}
+			if !immediate {
+				continue
+			}
 			for _, call := range core.Calls(f) {
 				cl, ok := call.(*ssa.Call)
 				if !ok {
 					continue
 				}
-				cal := cl.Common().StaticCallee()
-				if cal != nil && cal.Name() == "Decode" && cal.Signature.Params().Len() == 1 {
-					if _, n := core.NamedOf(cal.Signature.Params().At(0).Type()); n == "Decoder" && cal.Signature.Recv() != nil && core.FuncPkgPath(cal) == fx.PkgPath {
-						decodeCall = cl
-					}
-				}
 				if core.IsCallTo(cl.Common(), "github.com/go-faster/jx", "Decoder.Skip") {
 					skipCall = cl
+					continue
+				}
+				// any use of a *jx.Decoder as receiver or argument: this closure decodes JSON
+				usesDecoder := false
+				for _, a := range cl.Common().Args {
+					if pp, n := core.NamedOf(a.Type()); pp == "github.com/go-faster/jx" && n == "Decoder" {
+						usesDecoder = true
+					}
+				}
+				if usesDecoder && decodeCall == nil {
+					decodeCall = cl
 				}
 			}
 			if decodeCall == nil || f.Signature.Results().Len() != 1 {
@@ -363,7 +379,7 @@ func checkRequestDecoders(c *core.Ctx, r *core.Rule, ex *core.Expansion, fx *cor
 						}
 					}
 				}
-				if !dom || !core.DominatedBySuccess(decodeCall, skipCall.Block()) {
+				if !dom {
 					okAll = false
 				}
 			}
